@@ -7,7 +7,7 @@ from core import short
 import flow
 from flow import fmt_events
 from roles import field_root, FILE
-from rules_pipeline import expr_str, methods_of, resolve_alias
+from rules_pipeline import expr_str, methods_of, resolve_alias, deep_resolve
 
 OHB = 'Vector::BLF::ObjectHeaderBase'
 U2Q = FILE + '::uncompressedFile2ReadWriteQueue'
@@ -405,6 +405,40 @@ def C1(F, rep, FL):
            'a dequeued object is dropped without being encoded: ' + (fmt_events(bad) if bad else 'no path'), nontrivial=True)
 
 
+def A1(F, rep):
+    """the File API hands queue results through unchanged: read() returns what the queue returned, write() forwards its argument,
+    good()/eof() report the queue's state (the end-of-file indication the application sees is the queue's)"""
+    specs = [('read', 'read', True), ('write', 'write', False), ('good', 'good', True), ('eof', 'eof', True)]
+    for (api, qm, returns) in specs:
+        fns = [f for f in F.functions.get(FILE + '::' + api, [])]
+        if not fns:
+            raise AnalysisBroken('File::%s vanished' % api)
+        fn = fns[0]
+        rep.count('A1')
+        calls = [n for n in walk(fn['body']) if n.get('k') == 'Call' and n.get('ck') == 'member' and recv_root(n) == 'm_readWriteQueue']
+        ok = len(calls) == 1 and calls[0]['fn'] == qm
+        why = '%d call(s) on the queue' % len(calls)
+        if ok and returns:
+            rets = [r for r in walk(fn['body']) if r.get('k') == 'Return']
+            # the returned value is the call itself or a local initialised from it and never reassigned
+            def from_call(v):
+                v = strip_all_casts(v)
+                if v is calls[0]:
+                    return True
+                if isinstance(v, dict) and v.get('k') == 'Ref' and v.get('dk') == 'local':
+                    inits = [x.get('init') for d in walk(fn['body']) if d.get('k') == 'Decl' for x in d['vars'] if x['id'] == v['id']]
+                    reass = [b for b in walk(fn['body']) if b.get('k') == 'Bin' and b.get('op') == '=' and strip_all_casts(b['lhs']).get('id') == v['id']]
+                    return len(inits) == 1 and strip_all_casts(inits[0]) is calls[0] and not reass
+                return False
+            ok = len(rets) == 1 and from_call(rets[0].get('value'))
+            why = 'returns the queue result unchanged' if ok else 'does not return the queue result unchanged'
+        elif ok:
+            a = calls[0].get('args', [])
+            ok = len(a) == 1 and local_id(a[0]) == fn['params'][0]['id']
+            why = 'forwards its argument to the queue' if ok else 'does not forward its argument unchanged'
+        rep.ob('A1', 'File::%s' % api, ok, rep.fn_site(fn), 'File::%s %s (m_readWriteQueue.%s)' % (api, why, qm), nontrivial=True)
+
+
 # ---------------------------------------------------------------------- E2 zlib discipline, B3/B4 container invariant
 def E2B3(F, rep, FL, rules):
     lc = 'Vector::BLF::LogContainer'
@@ -667,9 +701,14 @@ def H2(F, rep, R, FL):
             break
         order_ok = last_join < min(a_fs, a_us, a_oc) and max(a_fs, a_us, a_oc) < seek < wr[-1] < cl and all(p < min(a_fs, a_us, a_oc) for p in proc)
         # sources: fileSize := tellp(), uncompressedFileSize := currentUncompressedFileSize, objectCount := currentObjectCount
-        src_ok = any(x.get('fn') == 'tellp' for x in walk(evs[a_fs]['n'])) and \
-            any(x.get('name') == 'currentUncompressedFileSize' for x in walk(evs[a_us]['n'])) and \
-            any(x.get('name') == 'currentObjectCount' for x in walk(evs[a_oc]['n']))
+        rs = lambda i_: deep_resolve(evs[i_]['n'], close)
+        src_ok = any(x.get('fn') == 'tellp' and recv_root(x) == 'm_compressedFile' for x in walk(rs(a_fs))) and \
+            any(x.get('name') == 'currentUncompressedFileSize' for x in walk(rs(a_us))) and \
+            any(x.get('name') == 'currentObjectCount' for x in walk(rs(a_oc)))
+        # a hoisted tellp() must still be taken after the restore-point pass and before the rewind
+        tp = [i for i, e in enumerate(evs) if e['ev'] == 'call' and e['n'].get('fn') == 'tellp' and recv_root(e['n']) == 'm_compressedFile']
+        if tp and not (all(p_ < tp[-1] for p_ in proc) and tp[-1] < seek):
+            src_ok = False
         # seekp(0)
         z = strip_all_casts(evs[seek]['n']['args'][0])
         zero = any(x.get('v') == 0 for x in walk(evs[seek]['n']['args'][0]))
@@ -759,9 +798,16 @@ def F3F4(F, rep, FL):
         if n_.get('k') == 'Bin' and n_.get('op') == '=' and (member_path(n_['lhs']) or (None,))[-1] == 'compressionMethod':
             ok2 = local_id(n_['rhs']) == pm.get('compressionMethod')
         if n_.get('k') == 'Switch':
-            ok3 = local_id(n_['cond']) == pm.get('compressionMethod') or (member_path(n_['cond']) or (None,))[-1] == 'compressionMethod'
+            ok3 = ok3 or local_id(n_['cond']) == pm.get('compressionMethod') or (member_path(n_['cond']) or (None,))[-1] == 'compressionMethod'
+        if n_.get('k') == 'If':
+            cc = strip(n_['cond'])
+            if isinstance(cc, dict) and cc.get('k') == 'Bin' and cc.get('op') in ('==', '!='):
+                for side in (cc['lhs'], cc['rhs']):
+                    sd = strip_all_casts(side)
+                    if isinstance(sd, dict) and (sd.get('id') == pm.get('compressionMethod') or sd.get('name') == 'compressionMethod'):
+                        ok3 = True
     rep.ob('F3', 'method-level|container', ok1 and ok2 and ok3, rep.fn_site(co),
-           'LogContainer::compress: the stored method is the parameter (%s), the switch dispatches on it (%s), ::compress2 gets the level parameter (%s)' % (ok2, ok3, ok1),
+           'LogContainer::compress: the stored method is the parameter (%s), the code dispatches on it (%s), ::compress2 gets the level parameter (%s)' % (ok2, ok3, ok1),
            nontrivial=True)
     # F4: cut size flow
     rep.count('F4')
@@ -792,6 +838,28 @@ def F3F4(F, rep, FL):
            'uncompressedFile2CompressedFile: ' + str(bad), nontrivial=True)
 
 
+def _method_of_path(evs):
+    """value of the compression method a path was dispatched on: a switch case, or an `== K` comparison taken / `!= K` not taken"""
+    case = None
+    for e in evs:
+        if e['ev'] != 'branch':
+            continue
+        if e.get('case') is not None:
+            case = strip_all_casts(e['case']).get('v')
+            continue
+        c = strip(e['n'])
+        while isinstance(c, dict) and c.get('k') == 'Cast':
+            c = strip(c['sub'])
+        if isinstance(c, dict) and c.get('k') == 'Bin' and c.get('op') in ('==', '!='):
+            l, r = strip_all_casts(c['lhs']), strip_all_casts(c['rhs'])
+            for a_, b_ in ((l, r), (r, l)):
+                nm = a_.get('name') if isinstance(a_, dict) else None
+                if nm == 'compressionMethod' and isinstance(b_, dict) and 'v' in b_:
+                    if e['taken'] == (c['op'] == '=='):
+                        case = b_['v']
+    return case
+
+
 def F3p(F, rep, FL):
     """payload provenance in LogContainer::compress / uncompress: on every normal exit the stored payload is what the stored method
     says it is (method 0: a copy of the other buffer; method 2: the output of the zlib call), and its size field is the size
@@ -806,10 +874,7 @@ def F3p(F, rep, FL):
         for evs, out in FL.paths(fn, follow=()):
             if out not in ('normal', 'return'):
                 continue
-            case = None
-            for e in evs:
-                if e['ev'] == 'branch' and e.get('case') is not None:
-                    case = strip_all_casts(e['case']).get('v')
+            case = _method_of_path(evs)
             if case is None:
                 continue
             n += 1
@@ -972,7 +1037,7 @@ def offsets_u2q(F, FL):
                     info['decode_at'] = off
                     off = off.add(term='CONSUMED')
             elif n.get('fn') == 'seekg' and recv_root(n) == 'm_uncompressedFile':
-                a = strip_all_casts(n['args'][0])
+                a = strip_all_casts(deep_resolve(n['args'][0], fn))
                 if a.get('k') == 'Un' and a.get('op') == '-' and strip_all_casts(a['sub']).get('fn') == 'calculateHeaderSize' and \
                         local_id(strip_all_casts(a['sub']).get('obj')) == hdr_var:
                     off = off.add(term='HDR', k=-1)
@@ -1092,7 +1157,7 @@ def T1(F, rep, FL):
     def lower_bound(i):
         lo = 0
         for e in i['guards']:
-            c = strip(e['n'])
+            c = strip(deep_resolve(e['n'], fn))
             flip = False
             while isinstance(c, dict) and (c.get('k') == 'Cast' or (c.get('k') == 'Un' and c.get('op') == '!')):
                 if c.get('k') == 'Un':
@@ -1199,40 +1264,34 @@ def B7(F, rep):
                 continue
             ncopies += 1
             rep.count('B7')
-            args = [_norm(expr_str(a)) for a in n['args']]
-            cont = [a for a in args if 'uncompressedFile.cbegin()' in a or 'uncompressedFile.begin()' in a]
+            # single-assignment locals (offset, count, hoisted iterators) are replaced by their initialisers first
+            args = [_norm(expr_str(deep_resolve(a_, fn))) for a_ in n['args']]
+            cont = [a_ for a_ in args if 'uncompressedFile.cbegin()' in a_ or 'uncompressedFile.begin()' in a_]
             problems = []
             import re
-            m = re.match(r'^\(uncompressedFile\.c?begin\(\) \+ (\w+)\)$', cont[0]) if cont else None
+            m = re.match(r'^\(uncompressedFile\.c?begin\(\) \+ (\((m_tell[gp]) - filePosition\))\)$', min(cont, key=len)) if cont else None
             if not m:
-                problems.append('container-side iterator is not begin() + <offset variable>: %s' % (cont[:1] or args))
+                problems.append('container-side iterator is not begin() + (position - filePosition): %s' % (cont[:1] or args))
             else:
-                off = m.group(1)
-                # count variable: the other bound
+                O, pos = m.group(1), m.group(2)
+                first = min(cont, key=len)
                 if len(cont) == 2:
-                    m2 = re.match(r'^\(\(uncompressedFile\.c?begin\(\) \+ %s\) \+ (\w+)\)$' % off, cont[1])
-                    cnt = m2.group(1) if m2 else None
+                    last = max(cont, key=len)
+                    G = last[len('(' + first + ' + '):-1] if last.startswith('(' + first + ' + ') else None
                 else:
-                    other = [a for a in args if a not in cont]
-                    m2 = re.match(r'^\((\w+) \+ (\w+)\)$', other[1]) if len(other) == 2 else None
-                    cnt = m2.group(2) if m2 else None
-                if cnt is None:
+                    other = [a_ for a_ in args if a_ not in cont]
+                    base = min(other, key=len) if other else ''
+                    last2 = max(other, key=len) if other else ''
+                    G = last2[len('(' + base + ' + '):-1] if last2.startswith('(' + base + ' + ') else None
+                bound = '(uncompressedFileSize - %s)' % O
+                if G is None:
                     problems.append('cannot identify the element count of the copy: %s' % args)
-                od = decls.get(off)
-                oinit = _norm(expr_str(od['init'])) if od else None
-                mo = re.match(r'^\((m_tell[gp]) - filePosition\)$', oinit or '')
-                if not mo:
-                    problems.append('offset %s is defined as [%s], expected <position> - filePosition' % (off, oinit))
-                else:
-                    pos = mo.group(1)
-                    lc = [v for v in decls.values() if 'logContainerContaining(%s)' % pos in _norm(expr_str(v['init']))]
-                    if not lc:
-                        problems.append('the container is not the one logContainerContaining(%s) returned' % pos)
-                if cnt is not None:
-                    cd = decls.get(cnt)
-                    cinit = _norm(expr_str(cd['init'])) if cd else ''
-                    if '(uncompressedFileSize - %s)' % off not in cinit or not (cinit.startswith('min(') or '?' in cinit or 'Cond' in cinit):
-                        problems.append('count %s is defined as [%s]: not bounded by uncompressedFileSize - %s' % (cnt, cinit, off))
+                elif not (G.startswith('min(') and (G.endswith(', ' + bound + ')') or G.startswith('min(' + bound + ', '))):
+                    problems.append('the count [%s] is not min(., uncompressedFileSize - offset) with offset = %s' % (G, O))
+                found = any('logContainerContaining(%s)' % pos in _norm(expr_str(x)) for x in walk(fn['body'], into_lambda=False)
+                            if x.get('k') == 'Call' and x.get('fn') == 'logContainerContaining')
+                if not found:
+                    problems.append('the container is not the one logContainerContaining(%s) returned' % pos)
             rep.ob('B7', '%s|copy@%s' % (short(fn['name']) + ('/container' if 'shared_ptr' in fn['sig'] else ''), len([1 for _ in range(ncopies)])),
                    not problems, rep.fn_site(fn, n['l']),
                    '%s: std::copy stays inside the container (offset = pos - filePosition, count <= uncompressedFileSize - offset)' % short(fn['name'])
@@ -1316,6 +1375,17 @@ def P5(F, rep, FL):
 
 
 # ---------------------------------------------------------------------- P4: consumed data only
+def _cmp_atoms(cond):
+    """comparison atoms of a condition (through ||, &&, !, casts): (lhs, op, rhs) as normalised strings"""
+    out = []
+    for x in walk(cond):
+        if x.get('k') == 'Bin' and x.get('op') in ('<', '>', '<=', '>='):
+            out.append((_norm(expr_str(x['lhs'])), x['op'], _norm(expr_str(x['rhs']))))
+        elif x.get('k') == 'Call' and x.get('ck') == 'operator' and x.get('op') in ('<', '>', '<=', '>=') and len(x.get('args', [])) == 2:
+            out.append((_norm(expr_str(x['args'][0])), x['op'], _norm(expr_str(x['args'][1]))))
+    return out
+
+
 def P4(F, rep, FL):
     """dropOldData removes the front container only when it lies wholly behind the get position (and put position / end)"""
     fn = F.fn('Vector::BLF::UncompressedFile::dropOldData')
@@ -1337,12 +1407,13 @@ def P4(F, rep, FL):
         guard = [e for e in evs[:pops[0]] if e['ev'] == 'branch' and not e['taken'] and
                  any(x.get('k') == 'Member' and x.get('name') == 'm_tellg' for x in walk(e['n']))]
         okg = False
+        ends = ('(uncompressedFileSize + filePosition)', '(filePosition + uncompressedFileSize)')
         for g in guard:
-            sx = _norm(expr_str(g['n']))
-            if '(position > m_tellg)' in sx or '(m_tellg < position)' in sx:
-                okg = True
-        posdef = [e for e in evs[:pops[0]] if e['ev'] == 'decl' and e['var']['name'] == 'position']
-        okp = bool(posdef) and _norm(expr_str(posdef[0]['var']['init'])) in ('(uncompressedFileSize + filePosition)', '(filePosition + uncompressedFileSize)')
+            # the guard (not taken) must contain the atom  END(front) > m_tellg  in either orientation, END = size + position of the front
+            for atom in _cmp_atoms(deep_resolve(g['n'], fn)):
+                if (atom[0] in ends and atom[1] == '>' and atom[2] == 'm_tellg') or (atom[0] == 'm_tellg' and atom[1] == '<' and atom[2] in ends):
+                    okg = True
+        okp = okg
         front = any(e['ev'] == 'call' and e['n'].get('fn') == 'front' for e in evs[:pops[0]])
         if not (okg and okp and front):
             bad = 'a path pops the front container without the guard position(front) <= m_tellg (guard=%s, position=end of front container: %s)' % (okg, okp and front)
@@ -1394,10 +1465,11 @@ def Z1(F, rep):
         rs = [n for n in walk(fn['body']) if n.get('k') == 'Call' and n.get('fn') == 'resize' and local_id(n.get('obj')) == v['id']]
         wr = [n for n in walk(fn['body']) if n.get('k') == 'Call' and n.get('fn') == 'write']
         parm = fn['params'][0]['id']
-        src_ok = bool(wr) and strip_all_casts(wr[0]['args'][0]).get('fn') == 'data' and local_id(strip_all_casts(wr[0]['args'][0]).get('obj')) == v['id']
+        a0 = strip_all_casts(deep_resolve(wr[0]['args'][0], fn)) if wr else {}
+        src_ok = bool(wr) and a0.get('fn') == 'data' and local_id(a0.get('obj')) == v['id']
         len_ok = bool(wr) and local_id(wr[0]['args'][1]) == parm and bool(rs) and local_id(rs[0]['args'][0]) == parm and len(rs[0]['args']) == 1
         # the only other writes into the buffer
-        other = [n for n in walk(fn['body']) if n.get('k') in ('Call',) and local_id(n.get('obj')) == v['id'] and n.get('fn') not in ('resize', 'data')]
+        other = [n for n in walk(fn['body']) if n.get('k') in ('Call',) and local_id(n.get('obj')) == v['id'] and n.get('fn') not in ('resize', 'data', 'size', 'empty')]
         ok = src_ok and len_ok and not other
         why = 'writes s bytes from a std::vector<char> value-initialised by resize(s) (source=%s, lengths=%s, other writes=%d)' % (src_ok, len_ok, len(other))
     rep.ob('Z1', 'skipp|zero', ok, rep.fn_site(fn), 'AbstractFile::skipp ' + why, nontrivial=True)
